@@ -14,6 +14,7 @@ import (
 	"net/http"
 
 	ws "github.com/gorilla/websocket"
+	verif "github.com/zishang520/engine.io/v2/internal/zzverif"
 )
 
 type WsMsg struct {
@@ -28,6 +29,7 @@ type WsState struct {
 	Out    []WsMsg // what the server wrote
 	Closed bool
 	wake   chan struct{}
+	writing bool
 }
 
 var WsStates = map[*ws.Conn]*WsState{}
@@ -89,9 +91,14 @@ type wsWriter struct {
 	buf []byte
 }
 
+// gorilla panics when a second writer is opened while one is still open on another goroutine
+const concurrentWrite = "concurrent write to websocket connection"
+
 func (w *wsWriter) Write(p []byte) (int, error) { w.buf = append(w.buf, p...); return len(p), nil }
 func (w *wsWriter) Close() error {
+	verif.PreemptPoint() // the frame goes out on the network here: a blocking write
 	w.s.Out = append(w.s.Out, WsMsg{w.mt, w.buf})
+	w.s.writing = false
 	return nil
 }
 
@@ -101,6 +108,10 @@ func mWsNextWriter(c *ws.Conn, mt int) (io.WriteCloser, error) {
 	if s.Closed {
 		return nil, errWsClosed
 	}
+	if s.writing {
+		panic(concurrentWrite)
+	}
+	s.writing = true
 	return &wsWriter{s: s, mt: mt}, nil
 }
 
